@@ -85,7 +85,91 @@ pub fn noise_update(n: usize, limit_mode: u8, market_mode: u8) {
     core::mem::forget(agent);
 }
 
+/// the multi-asset twin: one `NoiseMarketAgent::update` (agent on asset 1 of a two-asset environment)
+pub fn noise_market_update(n: usize, limit_mode: u8, market_mode: u8) {
+    use crate::agents::momentum_agent::verif_proofs::{stub_buy_m, stub_cancel_m, stub_sell_m};
+    let _ = (stub_buy_m::<SymRng, LogNormal<f64>, 2, 2>, stub_sell_m::<SymRng, LogNormal<f64>, 2, 2>, stub_cancel_m::<SymRng, 2, 2>);
+    let tick: Price = 1;
+    let mut env: MarketEnv<2, 2> = MarketEnv::new(any_u64(), [1, tick], any_u64(), any_bool());
+    let vol = any_u32();
+    assume(vol >= 1);
+    let p_limit = prob(limit_mode);
+    let p_market = prob(market_mode);
+    let mut agent = NoiseMarketAgent {
+        asset: 1,
+        tick_size: tick.into(),
+        price_dist: LogNormal::<f64>::new(0.0, 1.0).unwrap(),
+        orders: Vec::new(),
+        trader_ids: if n == 1 { vec![7] } else { vec![7, 8] },
+        params: NoiseAgentParams { tick_size: tick, p_limit, p_market, p_cancel: 0.0, trade_vol: vol, price_dist_mu: 0.0, price_dist_sigma: 1.0 },
+    };
+    let mut rng = SymRng::new();
+    agent.update(&mut env, &mut rng);
+    let (log, n_new) = placed();
+    let mut n_limit = [0usize; 2];
+    let mut n_market = [0usize; 2];
+    let mut fields_ok = true;
+    let mut k = 0;
+    while k < 4 {
+        if k < n_new {
+            let o = log[k];
+            fields_ok &= o.asset == 1 && o.vol == vol && (o.trader == 7 || (n == 2 && o.trader == 8));
+            let who = if o.trader == 7 { 0 } else { 1 };
+            if o.price.is_none() {
+                n_market[who] += 1;
+            } else {
+                n_limit[who] += 1;
+            }
+        }
+        k += 1;
+    }
+    vcheck!(n_new <= 2 * n, "NOISE.at_most_one_limit_and_one_market_order_per_trader");
+    vcheck!(fields_ok, "NOISE.own_asset_configured_volume_and_own_trader_ids");
+    vcheck!(n_limit[0] <= 1 && n_limit[1] <= 1 && n_market[0] <= 1 && n_market[1] <= 1, "NOISE.one_decision_of_each_kind_per_trader");
+    let tl = n_limit[0] + n_limit[1];
+    let tm = n_market[0] + n_market[1];
+    match limit_mode {
+        0 => vcheck!(tl == 0, "NOISE.limit_probability_zero_never_places"),
+        1 => vcheck!(tl == n, "NOISE.limit_probability_one_always_places_once_per_trader"),
+        _ => {}
+    }
+    match market_mode {
+        0 => vcheck!(tm == 0, "NOISE.market_probability_zero_never_places"),
+        1 => vcheck!(tm == n, "NOISE.market_probability_one_always_places_once_per_trader"),
+        _ => {}
+    }
+    vcheck!(agent.orders.len() == tl, "NOISE.tracks_exactly_its_new_limit_orders");
+    vcover!(n_new == 2 * n, "cover.every_trader_placed_both");
+    vcover!(n_new == 0, "cover.nobody_acted");
+    core::mem::forget(env);
+    core::mem::forget(agent);
+}
+
 vharnesses! {
+    #[cfg_attr(kani, kani::unwind(12))]
+    #[cfg_attr(kani, kani::stub(crate::agents::common::place_buy_limit_order_market, crate::agents::momentum_agent::verif_proofs::stub_buy_m))]
+    #[cfg_attr(kani, kani::stub(crate::agents::common::place_sell_limit_order_market, crate::agents::momentum_agent::verif_proofs::stub_sell_m))]
+    #[cfg_attr(kani, kani::stub(crate::agents::common::cancel_live_orders_market, crate::agents::momentum_agent::verif_proofs::stub_cancel_m))]
+    #[cfg_attr(kani, kani::stub(crate::MarketEnv::place_order, crate::MarketEnv::verif_log_place_order))]
+    fn c16_noise_market_update_n2_always() { noise_market_update(2, 1, 1) }
+    #[cfg_attr(kani, kani::unwind(12))]
+    #[cfg_attr(kani, kani::stub(crate::agents::common::place_buy_limit_order_market, crate::agents::momentum_agent::verif_proofs::stub_buy_m))]
+    #[cfg_attr(kani, kani::stub(crate::agents::common::place_sell_limit_order_market, crate::agents::momentum_agent::verif_proofs::stub_sell_m))]
+    #[cfg_attr(kani, kani::stub(crate::agents::common::cancel_live_orders_market, crate::agents::momentum_agent::verif_proofs::stub_cancel_m))]
+    #[cfg_attr(kani, kani::stub(crate::MarketEnv::place_order, crate::MarketEnv::verif_log_place_order))]
+    fn c16_noise_market_update_n2_never() { noise_market_update(2, 0, 0) }
+    #[cfg_attr(kani, kani::unwind(12))]
+    #[cfg_attr(kani, kani::stub(crate::agents::common::place_buy_limit_order_market, crate::agents::momentum_agent::verif_proofs::stub_buy_m))]
+    #[cfg_attr(kani, kani::stub(crate::agents::common::place_sell_limit_order_market, crate::agents::momentum_agent::verif_proofs::stub_sell_m))]
+    #[cfg_attr(kani, kani::stub(crate::agents::common::cancel_live_orders_market, crate::agents::momentum_agent::verif_proofs::stub_cancel_m))]
+    #[cfg_attr(kani, kani::stub(crate::MarketEnv::place_order, crate::MarketEnv::verif_log_place_order))]
+    fn c16_noise_market_update_n2_market_only() { noise_market_update(2, 0, 1) }
+    #[cfg_attr(kani, kani::unwind(12))]
+    #[cfg_attr(kani, kani::stub(crate::agents::common::place_buy_limit_order_market, crate::agents::momentum_agent::verif_proofs::stub_buy_m))]
+    #[cfg_attr(kani, kani::stub(crate::agents::common::place_sell_limit_order_market, crate::agents::momentum_agent::verif_proofs::stub_sell_m))]
+    #[cfg_attr(kani, kani::stub(crate::agents::common::cancel_live_orders_market, crate::agents::momentum_agent::verif_proofs::stub_cancel_m))]
+    #[cfg_attr(kani, kani::stub(crate::MarketEnv::place_order, crate::MarketEnv::verif_log_place_order))]
+    fn c16_noise_market_update_n2_interior() { noise_market_update(2, 2, 2) }
     #[cfg_attr(kani, kani::unwind(12))]
     #[cfg_attr(kani, kani::stub(crate::agents::common::place_buy_limit_order, stub_buy))]
     #[cfg_attr(kani, kani::stub(crate::agents::common::place_sell_limit_order, stub_sell))]
